@@ -147,6 +147,11 @@ def mkProg (frames : List FrameDef) (framers : List FramerDef) : Prog :=
     framer := fun i => (framers[i]?).getD { first := 0 },
     frames := fun i => (List.range frames.length).filter (fun f => ((frames[f]?).getD emptyFrame).framer == i) }
 
+/-- is some auxiliary framer referenced by more than one `aux` clause (plain or conditional) of the program?
+(the negation of `WF.unique`/`WF.nodup`, on the finite program) -/
+def sharedAux (frames : List FrameDef) : Bool :=
+  Outline.hasDup (frames.flatMap (fun fd => fd.auxes ++ suspAuxes fd.preacts))
+
 def initSt (w : World) : St World :=
   { frs := fun _ => {}, world := w, now := 0, trace := [] }
 
